@@ -301,13 +301,13 @@ Fixpoint expr_ok (e : expr) : bool :=
   match e with
   | ENum _ _ | EId _ => true
   | EIndex _ i => expr_ok i
-  | EPart _ (ENum _ _) (ENum _ _) => true
+  | EPart _ (ENum _ h) (ENum _ l) => (l <=? h) && (h <? 65536)    (* also rejects negative bounds, which fold to huge numbers *)
   | EPart _ _ _ => false
   | EUn _ a => expr_ok a
   | EBin _ a b => expr_ok a && expr_ok b
   | ECond c a b => expr_ok c && expr_ok a && expr_ok b
   | EConcat l => forallb expr_ok l
-  | ERepl (ENum _ _) x => expr_ok x
+  | ERepl (ENum _ n) x => (n <? 65536) && expr_ok x
   | ERepl _ _ => false
   | EOther _ => false
   end.
